@@ -1,6 +1,7 @@
 package main
 
 import (
+	"slices"
 	"github.com/nulab/autog/internal/geom"
 	"strings"
 	"encoding/json"
@@ -36,6 +37,7 @@ type Case struct {
 	Fixed    []int    `json:"fixed"` // [] or [w,h]
 	Smap     [][]int  `json:"smap"`  // [] or per node [present,w,h] (optionally ,x,y)
 	Virt     int      `json:"virt"`
+	Oo       int      `json:"oo"`  // 1: the option list is passed in reverse order
 	Bkl      int      `json:"bkl"` // 1..4: WithBrandesKoepfLayout(bkl-1) although the positioner is not Brandes-Koepf
 	Thor     int      `json:"thor"` // <0: library default
 	Seed     int      `json:"seed"`
@@ -220,6 +222,10 @@ func buildOptions(c *Case, rec *recorder) (graph.EdgeSlice, map[string]graph.Siz
 	}
 	if c.Mon == 1 {
 		opts = append(opts, autog.WithMonitor(rec))
+	}
+	if c.Oo == 1 {
+		// the same options in reverse order: what an option means must not depend on where it stands in the list
+		slices.Reverse(opts)
 	}
 	return src, sizes, opts
 }
